@@ -173,7 +173,8 @@ def _case(draw, ctx):
     kind = draw(st.sampled_from(["plain", "plain", "bb", "cyclic"]))
     if kind == "plain":
         spec = draw(S.circuit_spec(min_inputs=1, max_inputs=3 if small else 4, min_gates=1, max_gates=6 if small else 9,
-                                   max_fanin=3 if small else 4, io_outputs=True))
+                                   max_fanin=3 if small else 4, io_outputs=True,
+                                   pools=(S.BENIGN, S.ESCAPED) if draw(st.integers(0, 3)) == 0 else (S.BENIGN,)))
     elif kind == "bb":
         spec = draw(S.circuit_spec(min_inputs=1, max_inputs=3, min_gates=1, max_gates=6, max_fanin=3, max_insts=2,
                                    unconnected_pins=draw(st.booleans())))
